@@ -359,11 +359,213 @@ Section More.
         destruct Kl as [->| ->]; cbn; split; congruence. }
     split; [exact Hrep|].
     split.
-    { rewrite <- Hrn. symmetry.
+    { rewrite <- Hrn.
       assert (Hk : exists x, cls_at (heap (r_st ra)) rep = Some x).
       { assert (Hr2 : Held rep ra) by auto. pose proof (held_live ct cd cs cc cm cr rep ra Ga Hr2) as L.
         unfold is_live in L. unfold cls_at. destruct (hget (heap (r_st ra)) rep); [eexists; reflexivity | discriminate]. }
       destruct Hk as [x Hx]. apply (obj_name_ext anyobj _ _ rep x Xar Hx). }
     split; assumption.
+  Qed.
+
+  (* ================================================================ *)
+  (* reactions: members                                                 *)
+
+  Lemma insert_by_perm {A K} (kf : A -> K) cmp x l : Permutation (insert_by kf cmp x l) (x :: l).
+  Proof.
+    induction l as [|y l IH]; cbn; [reflexivity|]. destruct (cmp_ltb _); [|reflexivity].
+    rewrite IH. apply perm_swap.
+  Qed.
+  Lemma sort_by_perm {A K} (kf : A -> K) cmp l : Permutation (sort_by kf cmp l) l.
+  Proof.
+    unfold sort_by. induction l as [|x l IH]; cbn; [reflexivity|]. rewrite insert_by_perm. constructor. exact IH.
+  Qed.
+
+  Lemma omap'_fst {A B} (f : A -> option B) l l' :
+    omap' (fun i => option_map (fun y => (i, y)) (f i)) l = Some l' -> map fst l' = l.
+  Proof.
+    revert l'. induction l as [|x l IH]; intros l'; cbn; [intros E; injection E as <-; reflexivity|].
+    destruct (f x) as [y|]; cbn; [|discriminate].
+    destruct (omap' _ l) as [ys|]; [|discriminate]. intros E. injection E as <-. cbn. f_equal. apply IH. reflexivity.
+  Qed.
+
+  (* a reaction object that did not exist before the call was created by it, from exactly the given members *)
+  Lemma reaction_call_new st rs ps t id b :
+    Inv ct st -> snd (reaction_call ct cr st (Some (rs, ps)) t None) = CRet id b -> length (heap st) <= id ->
+    exists ob a c, hget (heap (fst (reaction_call ct cr st (Some (rs, ps)) t None))) id = Some ob /\
+                   o_data ob = DRxn a c t /\ Permutation a rs /\ Permutation c ps /\ o_children ob = rs ++ ps.
+  Proof.
+    intros I. unfold reaction_call. pose proof (cr_lt ct cd cs cc cm cr SO) as Hc.
+    destruct (omap' _ rs) as [fr|] eqn:E1; [|cbn; discriminate].
+    destruct (omap' _ ps) as [fp|] eqn:E2; [|cbn; discriminate].
+    apply omap'_fst in E1. apply omap'_fst in E2.
+    match goal with |- snd (if ?x then _ else _) = _ -> _ => destruct x end; [cbn; discriminate|].
+    match goal with |- snd (match sing_lookup ?a ?n ?k with _ => _ end) = _ -> _ =>
+      destruct (sing_lookup a n k) as [o| |e] eqn:EL end; cbn [fst snd].
+    - intros E Hlen. injection E as <- _. destruct (lookup_cls ct st cr _ _ o I Hc EL) as [ob [Ho _]].
+      apply hget_lt in Ho. lia.
+    - unfold create. destruct (nth_error ct cr) as [ci|]; [|cbn; discriminate].
+      destruct (c_fail ci); cbn [alloc fst snd]; try (intros E; discriminate).
+      intros E _. injection E as <- _. rewrite heap_register. cbn [heap]. rewrite hget_new.
+      eexists. eexists. eexists. split; [reflexivity|]. cbn. split; [reflexivity|].
+      split; [rewrite <- E1; apply Permutation_map; apply sort_by_perm|].
+      split; [rewrite <- E2; apply Permutation_map; apply sort_by_perm | reflexivity].
+    - intros E. discriminate.
+  Qed.
+
+  Definition member_cls (ri : rinfo) : nat := if is_s (ri_type ri) sCondensed then cm else cc.
+
+  Lemma op_rxn_members_x ri :
+    Forall (fun x => nonempty x = true) (ri_reactants ri ++ ri_products ri) ->
+    Op (fun _ => True) (rxn_members ct cd cs cc cm cr ri)
+       (fun rp r => Forall2 (fun x j => NamedQ (member_cls ri) x j r) (ri_reactants ri) (fst rp) /\
+                    Forall2 (fun x j => NamedQ (member_cls ri) x j r) (ri_products ri) (snd rp)).
+  Proof.
+    intros Hne. rewrite Forall_app in Hne. destruct Hne as [Hn1 Hn2]. rewrite Forall_forall in Hn1, Hn2.
+    unfold rxn_members, member_cls. cbv zeta.
+    assert (HB : forall (P : rstate -> Prop) x, nonempty x = true ->
+              Op P ((if is_s (ri_type ri) sCondensed then macro_by_name ct G else complex_by_name ct G) x)
+                   (NamedQ (if is_s (ri_type ri) sCondensed then cm else cc) x)).
+    { intros P x Hx. destruct (is_s (ri_type ri) sCondensed); [apply op_macro_by_name_x | apply op_complex_by_name_x]; exact Hx. }
+    unfold key_to_pil. apply op_catch; [| apply stable_true | apply op_fail; reflexivity].
+    eapply op_bind; [apply op_mapM with (Qx := NamedQ (if is_s (ri_type ri) sCondensed then cm else cc)) | apply stable_true | intros re].
+    { intros x Hx. apply HB. auto. } { apply stable_true. } { intros x y. apply stable_namedq. }
+    assert (SP2 : Stable (fun r => True /\ Forall2 (fun x j => NamedQ (if is_s (ri_type ri) sCondensed then cm else cc) x j r) (ri_reactants ri) re)).
+    { apply stable_and; [apply stable_true|]. apply stable_forall2. intros x y. apply stable_namedq. }
+    eapply op_bind; [apply op_mapM with (Qx := NamedQ (if is_s (ri_type ri) sCondensed then cm else cc)) | exact SP2 | intros pr].
+    { intros x Hx. apply HB. auto. } { exact SP2. } { intros x y. apply stable_namedq. }
+    apply op_ret. intros r [[_ F1] F2]. cbn [fst snd]. split; assumption.
+  Qed.
+
+  Lemma newnone_rxn_members h0 ri : Keeps (NewNone h0) (rxn_members ct cd cs cc cm cr ri).
+  Proof.
+    unfold rxn_members, key_to_pil. cbv zeta. apply keeps_catch; [|apply keeps_fail].
+    destruct (is_s (ri_type ri) sCondensed).
+    - apply keeps_bind; [apply keeps_mapM; intros x; apply newnone_macro_by_name | intros re].
+      apply keeps_bind; [apply keeps_mapM; intros x; apply newnone_macro_by_name | intros pr; apply keeps_ret].
+    - apply keeps_bind; [apply keeps_mapM; intros x; apply newnone_complex_by_name | intros re].
+      apply keeps_bind; [apply keeps_mapM; intros x; apply newnone_complex_by_name | intros pr; apply keeps_ret].
+  Qed.
+
+  Lemma forall2_app {A B} (R0 : A -> B -> Prop) l1 l1' l2 l2' :
+    Forall2 R0 l1 l1' -> Forall2 R0 l2 l2' -> Forall2 R0 (l1 ++ l2) (l1' ++ l2').
+  Proof. intros F1 F2. induction F1; cbn; [exact F2 | constructor; auto]. Qed.
+
+  Lemma forall2_split {A B} (R0 : A -> B -> Prop) l1 l2 l1' l2' :
+    Forall2 R0 (l1 ++ l2) (l1' ++ l2') -> length l1 = length l1' -> Forall2 R0 l1 l1' /\ Forall2 R0 l2 l2'.
+  Proof.
+    revert l1'. induction l1 as [|x l1 IH]; intros [|y l1'] F EL; try discriminate; cbn in *.
+    - split; [constructor | exact F].
+    - inversion F; subst. destruct (IH l1' H4 ltac:(lia)) as [A1 A2]. split; [constructor; assumption | exact A2].
+  Qed.
+
+  (* C14, reactions: members.  The reaction object is the one whose rate constant the statement sets.  When
+     it did not exist before the statement, it was built from exactly the looked-up members: its reactants /
+     products are permutations (sorted by canonical form) of the live registered singletons of the listed
+     names - macrostates for a condensed reaction, complexes otherwise *)
+  Theorem reader_builds_reaction_members line ri k acc r r' acc' :
+    decode line = Ok (SRxn ri) -> ri_rate ri = Some k ->
+    Forall (fun x => nonempty x = true) (ri_reactants ri ++ ri_products ri) -> RGood r ->
+    read_one ct G None (TList line) acc r = (r', Ok acc') ->
+    exists i ob,
+      hget (heap (r_st r')) i = Some ob /\ o_live ob = true /\ o_cls ob = cr /\
+      r_rate r' = (i, (k, ri_units ri)) :: r_rate r /\
+      (length (heap (r_st r)) <= i ->
+       exists a c re pr,
+         o_data ob = DRxn a c (ri_type ri) /\ Permutation a re /\ Permutation c pr /\
+         Forall2 (MemberIs (member_cls ri) (r_st r')) (ri_reactants ri) re /\
+         Forall2 (MemberIs (member_cls ri) (r_st r')) (ri_products ri) pr).
+  Proof.
+    intros Hd Hk Hne GD E.
+    pose proof (read_one_good ct cd cs cc cm cr SO IO (TList line) acc r
+                  ltac:(exists line, (SRxn ri); cbn; auto) GD) as HG.
+    rewrite E in HG. destruct HG as [G' X'].
+    unfold read_one in E. cbn [t_list] in E. rewrite bind_lift_Ok in E. cbn [ignored] in E.
+    rewrite bind_lift_Ok in E. unfold bind at 1 in E. unfold nroots at 1 in E. cbv beta iota in E.
+    unfold bind at 1 in E. rewrite (read_pil_line_decode ct G line _ (g_full cd cs cc cm cr) Hd r) in E.
+    cbn [exec_stmt] in E. fold (rxn_members ct cd cs cc cm cr ri) in E. unfold bind at 1 in E.
+    pose proof (op_rxn_members_x ri Hne r GD I) as HM.
+    pose proof (newnone_rxn_members (heap (r_st r)) ri r (hext_refl _ _)) as HN.
+    destruct (rxn_members ct cd cs cc cm cr ri r) as [ra [[re pr]|k0]] eqn:Em; [|discriminate].
+    destruct HM as [Ga [Xa [F1 F2]]]. cbn [fst snd] in F1, F2, HN. unfold NewNone in HN.
+    destruct (rxn_members_attrs ct cd cs cc cm cr ri r ra _ Em) as [Sa [Ca Ra]].
+    cbn [gR g slot] in E. rewrite bind_ret in E. unfold bind at 1 in E.
+    pose proof (forall2_namedq_held _ _ _ _ F1) as Hh1. pose proof (forall2_namedq_held _ _ _ _ F2) as Hh2.
+    assert (Hlive : forall x, In x (re ++ pr) -> is_live (heap (r_st ra)) x = true).
+    { intros x Hx. apply (held_live ct cd cs cc cm cr x ra Ga). apply in_app_or in Hx.
+      rewrite Forall_forall in Hh1, Hh2. destruct Hx; auto. }
+    assert (HO : Op (fun r0 => r0 = ra)
+                    (call (fun st => reaction_call ct cr st (Some (re, pr)) (ri_type ri) None)) (RetQ cr)).
+    { apply op_call.
+      - intros r0 GD0 ->. destruct Ga as [I1 K1].
+        destruct (reaction_call_spec ct cd cs cc cm cr (r_st ra) re pr (ri_type ri) SO I1 K1 Hlive) as [I2 [K2 [R2 F3]]].
+        split; [apply callok_reaction_call; [exact I1 | apply (cr_lt ct cd cs cc cm cr SO) |
+                intros rs ps x Ee Hx; injection Ee as <- <-; apply Hlive; exact Hx]|]. auto.
+      - intros st0. apply sext_reaction_call; [apply anyobj_kill | intros; exact I]. }
+    specialize (HO ra Ga eq_refl).
+    destruct (call (fun st => reaction_call ct cr st (Some (re, pr)) (ri_type ri) None) ra) as [rb [i|k0]] eqn:Ec; [|discriminate].
+    destruct HO as [Gb [Xb [Hi Hc]]]. destruct (call_attrs _ _ _ _ Ec) as [Sb [Cb Rb]].
+    (* when new: built from the members *)
+    assert (Dnew : length (heap (r_st r)) <= i ->
+                   exists ob a c, hget (heap (r_st rb)) i = Some ob /\ o_data ob = DRxn a c (ri_type ri) /\
+                                  Permutation a re /\ Permutation c pr /\ o_children ob = re ++ pr).
+    { intros Hlen.
+      assert (Hlen_a : length (heap (r_st ra)) <= i).
+      { destruct (Nat.lt_ge_cases i (length (heap (r_st ra)))) as [L|L]; [|exact L].
+        destruct (proj1 (hget_some_iff _ i) L) as [o Ho]. destruct (hx_new _ _ _ HN i o Hlen Ho). }
+      unfold call in Ec. destruct (reaction_call ct cr (r_st ra) (Some (re, pr)) (ri_type ri) None) as [st' [id b|k0 e0]] eqn:Es;
+        [|discriminate].
+      injection Ec as <- <-. cbn [r_st with_st hold heap]. destruct Ga as [I1 K1].
+      pose proof (reaction_call_new (r_st ra) re pr (ri_type ri) id b I1 (f_equal snd Es) Hlen_a) as H0.
+      exact (eq_ind _ (fun z => exists ob a c, hget (heap (fst z)) id = Some ob /\ o_data ob = DRxn a c (ri_type ri) /\
+                                  Permutation a re /\ Permutation c pr /\ o_children ob = re ++ pr) H0 _ Es). }
+    rewrite Hk in E. unfold bind at 1 in E. unfold set_rate at 1 in E. cbv beta iota in E.
+    unfold ret at 1 in E. cbv beta iota in E. unfold bind at 1 in E.
+    set (rc := mkR (r_st rb) (r_seq rb) (r_conc rb) (attr_set i (k, ri_units ri) (r_rate rb))) in *.
+    assert (Gc : RGood rc) by (destruct Gb; constructor; assumption).
+    assert (Hcc : ClsAt i cr rc) by exact Hc.
+    destruct (clsat_obj _ _ _ Hc) as [ob0 [Ho0 Ecl]].
+    assert (EF : exists acc2, file_obj ct G (RObj i) acc rc = (rc, Ok (acc2, [i]))).
+    { unfold file_obj. cbn [gD gS gC gM gR g].
+      destruct IO as [_ [_ [_ [_ [_ [_ [E7 [E8 [E9 E10]]]]]]]]]. cbv zeta in *.
+      rewrite (bind_ok _ _ _ _ _ (inst_slot_val ct i cr cd rc Hcc)), E7.
+      rewrite (bind_ok _ _ _ _ _ (inst_slot_val ct i cr cs rc Hcc)), E8.
+      rewrite (bind_ok get_state _ rc rc (r_st rc) eq_refl).
+      rewrite (bind_ok _ _ _ _ _ (inst_slot_val ct i cr cc rc Hcc)), E9.
+      rewrite (bind_ok _ _ _ _ _ (inst_slot_val ct i cr cm rc Hcc)), E10.
+      rewrite (bind_ok _ _ _ _ _ (inst_slot_val ct i cr cr rc Hcc)), subclass_refl.
+      destruct (kinv_rxn ct cd cs cc cm cr _ i ob0 (rg_kinv _ _ _ _ _ _ _ Gb) SO Ho0 Ecl) as [a0 [b0 [t0 [m0 [rr [pp [Ed0 _]]]]]]].
+      assert (Et : rtype_of (r_st rc) i = Ok t0) by (unfold rtype_of; cbn [rc r_st]; rewrite Ho0, Ed0; reflexivity).
+      rewrite Et. unfold lift. rewrite bind_ret_ok. destruct (is_s t0 sCondensed); eexists; reflexivity. }
+    destruct EF as [acc2 EF]. rewrite EF in E. cbn [snd fst] in E.
+    unfold bind, release, ret in E. injection E as <- _.
+    pose proof (hext_collect anyobj (cut_roots (r_st rc) (length (roots (r_st r))) [i])) as XC.
+    destruct (hx_old _ _ _ XC i ob0 Ho0) as [ob [Ho Kl]].
+    set (st' := collect (cut_roots (r_st rc) (length (roots (r_st r))) [i])) in *.
+    assert (Li : is_live (heap st') i = true).
+    { destruct G' as [[_ H'] _]. cbn [r_st with_st] in H'.
+      assert (Hr : In (Some i) (roots st')).
+      { unfold st'. cbn [roots collect cut_roots]. apply in_or_app. right. left. reflexivity. }
+      apply In_nth_error in Hr. destruct Hr as [s1 Hs1]. apply (hk_roots _ H' s1 i Hs1). }
+    assert (Lo : o_live ob = true) by (unfold is_live in Li; rewrite Ho in Li; exact Li).
+    exists i, ob. cbn [r_st with_st r_rate rc].
+    split; [exact Ho|]. split; [exact Lo|]. split; [destruct Kl as [->| ->]; exact Ecl|].
+    split; [unfold attr_set; congruence|].
+    intros Hlen. destruct (Dnew Hlen) as [ob1 [a [c [Ho1 [Ed [Pa [Pc Ech]]]]]]].
+    rewrite Ho0 in Ho1. injection Ho1 as <-.
+    exists a, c, re, pr. split; [destruct Kl as [->| ->]; exact Ed|]. split; [exact Pa|]. split; [exact Pc|].
+    assert (Xar : HExt anyobj (heap (r_st ra)) (heap st')).
+    { eapply hext_trans; [apply anyobj_kill | exact (re_heap _ _ Xb) | exact XC]. }
+    assert (FM : Forall2 (MemberIs (member_cls ri) (r_st (with_st rc st'))) (ri_reactants ri ++ ri_products ri) (re ++ pr)).
+    { apply (children_members (member_cls ri) (with_st rc st') i ob _ (re ++ pr) G' Ho Lo).
+      - destruct Kl as [->| ->]; exact Ech.
+      - apply forall2_app.
+        + clear -F1 Xar. induction F1 as [|x j xs ids [_ [Hc0 [o [Ho En]]]] F IH]; constructor; [|exact IH].
+          destruct (hx_old _ _ _ Xar j o Ho) as [o' [Ho' Kl]]. exists o'. cbn [r_st with_st]. split; [exact Ho'|].
+          unfold ClsAt, cls_at in Hc0. rewrite Ho in Hc0. cbn in Hc0. destruct Kl as [->| ->]; cbn; split; congruence.
+        + clear -F2 Xar. induction F2 as [|x j xs ids [_ [Hc0 [o [Ho En]]]] F IH]; constructor; [|exact IH].
+          destruct (hx_old _ _ _ Xar j o Ho) as [o' [Ho' Kl]]. exists o'. cbn [r_st with_st]. split; [exact Ho'|].
+          unfold ClsAt, cls_at in Hc0. rewrite Ho in Hc0. cbn in Hc0. destruct Kl as [->| ->]; cbn; split; congruence. }
+    cbn [r_st with_st] in FM. apply forall2_split in FM; [exact FM|].
+    clear -F1. induction F1; cbn; auto.
   Qed.
 End More.
